@@ -182,3 +182,50 @@ def run(run, P, units=None):
                               'count, so the fill %s' % (c, " ('%s')" % chr(c) if 32 <= c < 127 else '', mt[c], ft[c], len(bad),
                                                       'writes behind the allocation' if ft[c] > mt[c] else 'leaves the tail of the string unset'), [])
     run.require(npairs >= (2 if not units else 1) or run.fixture_mode, 'R-SIZE-FILL: fewer than 2 measure/fill loop pairs found (expected coap_get_query, coap_get_uri_path)')
+
+
+def run_separator(run, P, units=None):
+    """R-SIZE-FILL (separators): the measuring pass counts one separator between any two segments, whatever their lengths.  In the filling
+    pass the store of a separator (a constant stored through the output cursor in the OUTER loop of a fill loop) is therefore decided by
+    how many segments have been written, never by where the cursor stands: its controlling condition does not read the cursor.  `if (s !=
+    start) *s++ = '&'` writes no separator after an EMPTY first segment -- the string comes out one byte shorter than measured, with an
+    uninitialised byte at its end and the first separator missing."""
+    from core.prog import control_deps
+    run.rule('R-SIZE-FILL')
+    n = 0
+    for f in sorted(P.lib_funcs(), key=lambda f: f['name']):
+        if units and f['unit'] not in units:
+            continue
+        try:
+            ls = classify(P, f)
+        except KeyError:
+            continue
+        fills = [l for l in ls if l[1] == 'fill']
+        if not fills or not [l for l in ls if l[1] == 'measure']:
+            continue
+        B = f['B']
+        loops = natural_loops(f)
+        cd = control_deps(f)
+        for (h, kind, elemkey, cur, body) in fills:
+            outer = [bd for hh, bd in loops.items() if hh != h and h in bd]
+            if not outer:
+                continue
+            ob = min(outer, key=len)
+            for bid in sorted(ob - body):
+                for ev in B[bid]['elems']:
+                    t = ev['e']
+                    if _cursor_store(t) == cur and const_int(t['r']) is not None:
+                        n += 1
+                        reads = []
+                        for (bb, idx) in cd.get(bid, ()):
+                            c = (B[bb].get('term') or {}).get('cond')
+                            if c is not None and bb in ob and any(isinstance(x, dict) and ap(x) == cur for x in walk(c)):
+                                reads.append(short(c)[:40])
+                        ok = not reads
+                        run.instance('R-SIZE-FILL', '%s: separator \'%s\' decided without reading the cursor' % (f['name'], chr(const_int(t['r'])) if 32 <= const_int(t['r']) < 127 else const_int(t['r'])))
+                        run.oblige('R-SIZE-FILL', ok, '%s:separator-by-count' % f['name'])
+                        if not ok:
+                            run.violation('R-SIZE-FILL', f['name'], ev['loc'], 'separator-decided-by-cursor-position',
+                                          'the separator is written under the condition %s, which reads the output cursor: after an empty first segment the cursor has not moved, '
+                                          'no separator is written although the measuring pass counted one, and the string ends in an uninitialised byte' % reads[0], [])
+    run.require(n >= (2 if not units else 1) or run.fixture_mode, 'R-SIZE-FILL(separators): fewer than 2 separator stores in the outer loop of a fill loop found')
